@@ -132,6 +132,27 @@ impl TwoLits {
         format!("{}{}{}", &o[..first.start], moved, &o[first.end..])
     }
 }
+/// one multi-line literal, mis-indented by every amount from 0 to 12 blanks, with something behind its closing quotes
+fn one_lit_texts() -> Texts {
+    let mut items = vec![];
+    for (head, close) in [("x :=\n", ";"), ("f(\n", ", 1);")] {
+        for n in 1..=2usize {
+            for ind in 0..=12usize {
+                for tail in TL_TAILS {
+                    let i = " ".repeat(ind);
+                    let mut lit = format!("{i}'''\n");
+                    for k in 0..n {
+                        lit.push_str(&format!("{i}abc{k}\n"));
+                    }
+                    lit.push_str(&format!("{i}'''"));
+                    items.push(format!("begin\n  {head}{lit}{tail}{close}\nend;\n"));
+                }
+            }
+        }
+    }
+    Texts { name: "one-ml-literal(indent 0..12, 1..2 lines, 6 tails)".into(), items }
+}
+
 impl TextSource for TwoLits {
     fn name(&self) -> String {
         "two-ml-literals(first-moved,second-in-place)".into()
@@ -1606,6 +1627,14 @@ pub fn families(check: &str, tier: &str) -> Vec<Box<dyn Family>> {
                     // of a range: whether the line is wrapped again after the literal moved must not depend on
                     // line endings
                     tf("c09lits", two_lits(), &others[..1], Box::new(|x, c, ctx| {
+                        for w in 24..=56u32 {
+                            if w > 24 {
+                                ctx.sub_eval();
+                            }
+                            c09_variants(x, &c.with(|k| k.wrap = w), false, ctx);
+                        }
+                    })),
+                    tf("c09lits", one_lit_texts(), &others[..1], Box::new(|x, c, ctx| {
                         for w in 20..=64u32 {
                             if w > 20 {
                                 ctx.sub_eval();
@@ -1625,6 +1654,14 @@ pub fn families(check: &str, tier: &str) -> Vec<Box<dyn Family>> {
                         c09_variants(&t[2], c, false, ctx);
                     })),
                     sf("c09", &all_seeds(), &others, Box::new(|s, c, ctx| c09_variants(&s.text, c, true, ctx))),
+                    tf("c09lits", one_lit_texts(), &others[..2], Box::new(|x, c, ctx| {
+                        for w in 16..=100u32 {
+                            if w > 16 {
+                                ctx.sub_eval();
+                            }
+                            c09_variants(x, &c.with(|k| k.wrap = w), true, ctx);
+                        }
+                    })),
                     tf("c09lits", two_lits(), &others[..2], Box::new(|x, c, ctx| {
                         for w in 16..=100u32 {
                             if w > 16 {
@@ -1677,7 +1714,15 @@ pub fn families(check: &str, tier: &str) -> Vec<Box<dyn Family>> {
             ];
             let d = if quick { 2 } else { 3 };
             let nb = if quick { 2 } else { 4 };
+            // hard tabs: one tab is one column for the wrapper and for the measure alike
+            let tabbed = [cfg::DEFAULT.with(|c| { c.tabs = true; c.tw = 4; }), cfg::DEFAULT.with(|c| { c.tabs = true; c.tw = 8; c.ci = 1; c.begin = cfg::BeginStyle::AlwaysWrap; })];
+            let dt = if quick { 1 } else { 2 };
             vec![
+                pf("c11tabs", &g(dt), dt, &tabbed[..if quick { 1 } else { 2 }], Box::new(move |_g, toks, c, ctx| {
+                    let t = progs::base_texts(toks);
+                    o2::c11_dense(&t[1], ws, c, c11_tag(toks), ctx);
+                })),
+                sf("c11tabs", &wf_seeds(), &tabbed[..1], Box::new(move |s, c, ctx| o2::c11_dense(&s.text, ws, c, None, ctx))),
                 pf("c11", &g(d), d, &bases[..1], Box::new(move |_g, toks, c, ctx| {
                     let t = progs::base_texts(toks);
                     o2::c11_dense(&t[1], ws, c, c11_tag(toks), ctx);
@@ -1747,6 +1792,7 @@ pub fn families(check: &str, tier: &str) -> Vec<Box<dyn Family>> {
         "C14" => {
             if quick {
                 vec![
+                    tf("c14", Texts { name: "directive-ladders(n<=100,150,300; 3 shapes)".into(), items: crate::alphabet::directive_ladders(100) }, &one, or_c14(true)),
                     tf("c14", soup(2, GAPS5, CONTEXTS), &one, or_c14(false)),
                     tf("c14", Chars { n: 3 }, &one, or_c14(false)),
                     tf("c14", Skeletons { n: 6 }, &one, or_c14(false)),
@@ -1757,6 +1803,7 @@ pub fn families(check: &str, tier: &str) -> Vec<Box<dyn Family>> {
                 ]
             } else {
                 vec![
+                    tf("c14", Texts { name: "directive-ladders(n<=100,150,300; 3 shapes)".into(), items: crate::alphabet::directive_ladders(100) }, &one, or_c14(true)),
                     tf("c14", soup(3, GAPS3, CONTEXTS), &one, or_c14(false)),
                     tf("c14", Chars { n: 4 }, &one, or_c14(false)),
                     tf("c14", Skeletons { n: 8 }, &one, or_c14(false)),
